@@ -6,7 +6,8 @@ Input: `impl.out` of family `rep` (each executed line echoed as `> line`, its re
 dump `tasks= / ws / nops= / unsynced`).  Predicates:
 
 * `invariant` (C05, C07): tasks = (tasks at the last sync) ⊕ unsynced operations, at every dump
-  (cases flagged `wild=1` commit operations with untrue old values and are exempt);
+  (in cases flagged `wild=1`, which commit operations with untrue old values, only until the
+  first successful undo: undoing such operations legitimately leaves the invariant);
 * `log`       (C05): a commit appends exactly its batch, in order, to the unsynchronized list;
 * `undo`      (C07): a refused / failed undo changes nothing; a successful one removes exactly the
   supplied operations from the end of the list;
@@ -49,6 +50,7 @@ structure RJ where
   action : List String := []
   result : String := ""
   fails : List String := []
+  tainted : Bool := false    -- an undo of operations with untrue old values happened (wild cases only)
 
 def wsMembers (ws : List (Option Nat)) : List Nat := ws.filterMap id
 
@@ -65,7 +67,7 @@ def checkDump (j : RJ) : List String :=
   let uuids := sortDedup ((c.tasks ++ j.base).map (·.1) ++ c.uns.filterMap Op.uuid?)
   -- invariant
   let inv :=
-    if j.wild then []
+    if j.tainted then []
     else
       let expect := canonDB uuids keys (applyL (dbOf j.base) (c.uns.filterMap Op.toSync))
       if expect == c.tasksTxt then [] else [s!"invariant broken tasks={c.tasksTxt} base⊕unsynced={expect}"]
@@ -173,6 +175,8 @@ def rjLine (j : RJ) (line : String) : RJ × List String :=
     let isQ := j.action.isEmpty
     let base := if j.action.head? == some "Y" then j.cur.tasks else j.base
     let j := { j with base := base }
+    let undone := (j.action.head? == some "U" || j.action.head? == some "V") && j.result == "true"
+    let j := { j with tainted := j.tainted || (j.wild && undone) }
     let fs := if isQ then [] else checkDump j
     ({ j with fails := j.fails ++ (fs.map briefWordsR), prev := j.cur, action := [] }, [])
   else if line == "panic" || line.startsWith "err:" || line.startsWith "sync err" || line == "rebuilt err" || line == "expire err" then
